@@ -1,7 +1,7 @@
 (* C15 -- independent instances may be used concurrently from different threads.
    Property theorems only: statement + exact + Print Assumptions. *)
 From Coq Require Import List ZArith String Bool.
-From LJT Require Import model.Threads model.Globals gen.GenGlobals gen.GenGlobalsBin proofs.ThreadsProofs proofs.GlobalsProofs proofs.GlobalsBinProofs.
+From LJT Require Import model.Threads model.Globals model.ErrState gen.GenGlobals gen.GenGlobalsBin proofs.ThreadsProofs proofs.GlobalsProofs proofs.GlobalsBinProofs proofs.ErrStateProofs.
 Import ListNotations.
 
 (* (1) noninterference -- generic: ALL programs, ALL interleavings, unbounded.
@@ -17,10 +17,10 @@ Theorem C15_noninterference :
 Proof. exact noninterference_all. Qed.
 Print Assumptions C15_noninterference.
 
-(* is_interleaving covers every trace obtained by repeatedly scheduling a pending thread *)
-Theorem C15_all_merges_covered : forall p tr, Merge p tr -> is_interleaving p tr.
-Proof. exact merge_is_interleaving. Qed.
-Print Assumptions C15_all_merges_covered.
+(* is_interleaving is EXACTLY "obtained by repeatedly scheduling a pending thread" *)
+Theorem C15_interleavings_are_the_merges : forall p tr, Merge p tr <-> is_interleaving p tr.
+Proof. exact (fun p tr => conj (merge_is_interleaving p tr) (interleaving_is_merge tr p)). Qed.
+Print Assumptions C15_interleavings_are_the_merges.
 
 (* (2) over the GENERATED inventory of the current tree: every object with static
    storage duration is const, thread-local or never written, except the allow-listed
@@ -63,6 +63,33 @@ Theorem C15_env_sites :
 Proof. exact env_sites_proof. Qed.
 Print Assumptions C15_env_sites.
 
+(* (3b) error-message ownership (model of the error state of src/turbojpeg.c, model/ErrState.v): after a failure with
+   message m on instance i, whatever happens on OTHER instances and in instance-less functions of the same thread
+   (failures, queries), tj3GetErrorStr(i) returns m. *)
+Theorem C15_errstr_ownership :
+  forall pre i m mid s,
+    forallb (fun o => negb (touches_inst i o)) mid = true ->
+    exists rs, snd (erun (pre ++ [EFail i m] ++ mid ++ [EGet i]) s) = (rs ++ [m])%list.
+Proof. exact errstr_ownership_proof. Qed.
+Print Assumptions C15_errstr_ownership.
+
+(* ... and across threads: error-state operations of different threads on exclusive instances are steps that satisfy
+   the noninterference hypotheses, so in every interleaving every query observes what it observes in the solo run *)
+Theorem C15_errstate_threads :
+  forall ths, einst_exclusive ths ->
+  forall tr, is_interleaving (eprog 0 ths) tr ->
+  forall s0, solo_equivalent (eprog 0 ths) tr s0 /\ conflict_free (eprog 0 ths).
+Proof. exact errstate_threads_proof. Qed.
+Print Assumptions C15_errstate_threads.
+
+(* the transition rules of model/ErrState.v are the ones of the C text: generated write sites of
+   tjinstance.errStr / isInstanceError (the query functions write neither; set_instance_error stores the message and
+   raises the flag and is called exactly by my_output_message; whoever raises the flag stores a message; the flag
+   only receives 0/1; tj3Init initialises the string) *)
+Theorem C15_source_errstate : errstate_source_b = true.
+Proof. exact errstate_source_check. Qed.
+Print Assumptions C15_source_errstate.
+
 (* (4) the property in the model, for whatever steps stand for the C calls; its
    hypothesis within_inventory ("the C text's real footprint is what the inventory
    says") is NOT proved about the C text: it is trusted to the translator. *)
@@ -86,6 +113,14 @@ Example C15_ex_shared_cache_breaks :
   List.length bad_traces = 20%nat /\
   existsb (fun tr => negb (check_trace bad_program ex_locs ex_s0 tr)) bad_traces = true.
 Proof. exact bad_example. Qed.
+
+(* the behaviour before the fix of finding F-C15-2 violates the ownership clause; the fixed model does not *)
+Example C15_ex_errstr_old_refuted :
+  erun_old true [ENew 1; ENew 2; EFail 1 11; EFail 2 22; EGet 1] est0 = [22%Z] /\
+  erun_old false [ENew 0; ENew 1; EFail 0 11; EGet 0; EFail 1 22; EGet 0] est0 = [11%Z; 22%Z] /\
+  snd (erun [ENew 1; ENew 2; EFail 1 11; EFail 2 22; EGet 1] est0) = [11%Z] /\
+  snd (erun [ENew 0; ENew 1; EFail 0 11; EGet 0; EFail 1 22; EGet 0] est0) = [11%Z; 11%Z].
+Proof. exact errstr_old_refuted. Qed.
 
 Example C15_ex_within_inventory : forall nglob, within_inventory nglob (api_step nglob).
 Proof. exact api_step_within. Qed.
